@@ -277,6 +277,12 @@ theorem C05_three_operands (o1 o2 : BinOp) (a b c : Atom) :
 theorem C05_leading_whitespace (ws cs : List Char) (h : ∀ c ∈ ws, isWs c = true) (hcs : ∀ c, cs.head? = some c → isWs c = false) :
     lex (ws ++ cs) = lex cs := LexFacts.lex_leading_ws ws cs h hcs
 
+/-- a block comment in front of a text produces no token, whatever it contains up to its first `*/`
+    (`COMMENT : '/*' .*? '*/' -> skip`, the one non-greedy rule) -/
+theorem C05_leading_comment (body cs : List Char) (h : LexFacts.hasClose body = false) :
+    lex ('/' :: '*' :: (body ++ '*' :: '/' :: cs)) = lex cs := LexFacts.lex_leading_comment body cs h
+
+#print axioms C05_leading_comment
 #print axioms C05_int_arith
 #print axioms C05_int_add_exact
 #print axioms C05_int_mul_exact
